@@ -118,12 +118,20 @@ def run_check(mod, tier, seed):
         # was not started is reported (capped run, never called exhaustive).  The quick tier has no budget.
         budget = float(os.environ.get("VERIF_BUDGET_S", "0") or 0) or (BUDGET_THOROUGH if tier == "thorough" else 0)
         with ctx.Pool(min(NPROC, len(packed)), maxtasksperchild=1) as pool:
-            for r in pool.imap_unordered(_run_task, packed, chunksize=1):
-                results.append(r)
-                if failfast and (r.get("errors") or any(match_known(prop, v["signature"], known0) is None
-                                                        for v in r.get("violations", []))):
-                    pool.terminate()
+            it = pool.imap_unordered(_run_task, packed, chunksize=1)
+            while True:
+                try:
+                    r = it.next(timeout=5.0)  # wake up regularly: a single deep task may outlast the budget
+                except multiprocessing.TimeoutError:
+                    r = None
+                except StopIteration:
                     break
+                if r is not None:
+                    results.append(r)
+                    if failfast and (r.get("errors") or any(match_known(prop, v["signature"], known0) is None
+                                                            for v in r.get("violations", []))):
+                        pool.terminate()
+                        break
                 if budget and time.time() - t0 > budget and len(results) < len(packed) and \
                         sum(1 for x in results if str(x.get("label", "")).startswith("q:")) >= nbase:
                     pool.terminate()
